@@ -47,10 +47,11 @@ TIntValFinish == Ev("IntValFinish") /\ IntValFinish(Tr[l].i, Tr[l].v) /\ PostOk
 TReply == Ev("Reply") /\ Reply(Tr[l].i) /\ PostOk
 TTick == Ev("Tick") /\ Tick /\ PostOk
 TShutdown == Ev("Shutdown") /\ Shutdown /\ PostOk
+TConnect == Ev("Connect") /\ Connect /\ PostOk
 TRecvJunk == Ev("RecvJunk") /\ RecvJunk("junk") /\ PostOk
 
 TNext == \/ TAttach \/ TAttachDup \/ TDetach \/ TRecvInterest \/ TIntValFinish \/ TReply
-         \/ TTick \/ TShutdown \/ TRecvJunk
+         \/ TTick \/ TShutdown \/ TConnect \/ TRecvJunk
 TSpec == TInit /\ [][TNext]_tvars
 
 Mark == TLCSet(tid, Max2(TLCGet(tid), l))
